@@ -13,7 +13,9 @@ key, rows are produced in index order over the full length; (2) every element ap
 synthesize_trials returns is the result of __filter_hidden_keys applied to add_implied_levels of a raw sample, and
 the hidden filters test HiddenName with the right polarity; (3) the public wrappers obtain their columns through
 __filter_hidden from a factor source that covers both parts into which Block.__init__ splits the user's design
-(design + continuous_factors, or orig_design).
+(design + continuous_factors, or orig_design).  The tuple / dict helpers are judged by the normal form of the whole
+function (a helper extracted later is seen through): per experiment, the columns fetched by key over the label sequence,
+transposed; the CSV rows either per row index [experiment[c][r] for c in csv_columns] or the same transposition.
 """
 NOT_DECIDED = "value equality beyond 'same key, same index' (there is no arithmetic on values in these helpers); file I/O."
 
